@@ -2,6 +2,27 @@ from ..selftest import M
 
 L = "msmart/lan.py"
 CORPUS = [
+    # F8 (fixed in d331695): the type nibble is unauthenticated; a handshake response is accepted only while one is pending
+    M("handshake-guard-removed", L, """            if not self._handshake_pending:
+                raise ProtocolError("Unexpected handshake response.")
+
+""", ""),
+    M("pending-flag-never-reset", L, """        finally:
+            self._handshake_pending = False
+""", ""),
+    M("pending-flag-armed-after-read", L, """            self._handshake_pending = True
+            self.write(token, packet_type=self.PacketType.HANDSHAKE_REQUEST)
+            response = await self.read()
+""", """            self.write(token, packet_type=self.PacketType.HANDSHAKE_REQUEST)
+            response = await self.read()
+            self._handshake_pending = True
+"""),
+    M("pending-flag-defaults-true", L, "        self._handshake_pending = False\n\n    @property", "        self._handshake_pending = True\n\n    @property"),
+    M("n-pending-flag-armed-before-try", L, """        try:
+            self._handshake_pending = True
+            self.write(token, packet_type=self.PacketType.HANDSHAKE_REQUEST)""", """        self._handshake_pending = True
+        try:
+            self.write(token, packet_type=self.PacketType.HANDSHAKE_REQUEST)""", expect="S"),
     M("f1-returns", L, "return payload[2:len(payload) - pad].tobytes()", "return payload[2:-pad].tobytes()"),
     M("pad-16-at-zero", L, "pad = 16 - remainder if remainder != 0 else 0", "pad = 16 - remainder"),
     M("pad-wrong-modulus", L, "remainder = (len(data) + 2) % 16", "remainder = (len(data)) % 16"),
